@@ -18,6 +18,11 @@ claimed = {
    note="Assumed: contracts of package time on whole seconds (time.Unix, Time.Add, Time.Unix, Time.Sub, Duration.Nanoseconds: listed in the evidence as assumed), region assumptions (facts established by the code before the region, e.g. streamCountBefore <= len(streams)), run-time checks inside the two large functions are assumed to pass (nosafety). Search-result equality and file I/O are not covered.",
    tech="contract-based deductive verification: region contracts + loop invariants, own VC generator over go/ssa + z3/cvc5",
    ref="DESIGN.md section 4 (C07)"),
+ "C03": dict(
+   text="Deductive proof, for every stream valuation (atoms are interpreted through uninterpreted functions for tag state and variable values), that negation of the atoms under contract is exact: TagCondition.invert accepts exactly the complementary tag states, HostCondition.invert flips the match and keeps address and masks, NumberCondition.invert satisfies (Number' + sum) >= 0 iff not (Number + sum) >= 0 over the integers (recursive sum as a spec function with induction lemmas, multiplication uninterpreted with the ring law used), the impossible condition negates to 'no condition', and the negation of the empty conjunction (always true) is the impossible condition rather than 'no condition'; plus the rule-site assertion that the number simplification divides the constant exactly (the common factor it divides by also divides the constant). Operators on condition sets, the other clean* rewrites, time/flag/data atoms and the translation from text are not under contract yet and are not decided by this check.",
+   note="Assumed: |Number| and factors below 2^62 (no wrap-around on negation), tag state is one of four values; nmul law nmul(-a,b) = -nmul(a,b) (a true law of multiplication, listed as axiom). Partial claim: see functions_under_contract in the evidence.",
+   tech="contract-based deductive verification: semantic spec functions + induction lemmas, own VC generator over go/ssa + z3/cvc5",
+   ref="DESIGN.md section 4 (C03)"),
  "C14": dict(
    text="Deductive proof of totality facts on the real parser code: the value and term capture functions and the host-mask parser are free of index/slice panics for every token text the grammar can hand them (all inputs, with the token shapes as preconditions) and their loops terminate; every loop of the number-filter and flag-filter simplification (cleanNumberConditions, cleanFlagConditions, including the common-factor search and the 16-bit mask enumerations) terminates, proved with a variant per loop; the sort comparator of tag conditions equals a spec function that is proved to be a strict total order, so the normal form of tag conditions does not depend on map iteration order. Functions of the parser not listed under functions_under_contract in the evidence are not decided by this check; promptness is a complexity claim and is not decided.",
    note="Assumed: participle's lexer/parser is total and delivers tokens matching its patterns (token shapes are preconditions); strings.HasPrefix/HasSuffix/strconv.ParseInt contracts; in the two large simplification functions run-time checks are assumed to pass (nosafety) and each loop is verified from its invariant alone; loop 3 of cleanNumberConditions assumes no factor equals MinInt64.",
